@@ -719,6 +719,32 @@ def bounded(prop, unit_names, labels_props):
                 out.append(dict(oid='queries/ood_list/ood.lists_every_definitely_stale_target', msg='clause fails on the real binaries for a concrete history (bounded probe ood)',
                                 where=REPO + '/src/bin/redo/ood.rs:run', site=None, text=hits[0]['clause'], rendered=json.dumps(hits[:6], indent=1),
                                 inputs=[h['input'] for h in hits], fn='ood_list', label='ood.lists_every_definitely_stale_target', props=['C17']))
+    if os.environ.get('VERIF_TIER_EFFECTIVE') == 'thorough':
+        # every targeted probe on the real binaries that speaks about this property, then the recorded histories
+        extra = []
+        if prop in ('C06', 'C07', 'C01', 'C02', 'C11'):
+            extra.append(('contend', _contend_failures, 'sched/run_body/run.start_holds_kernel_lock' if prop in ('C06', 'C07') else 'sched/run_body/run.record_read_under_lock',
+                          lambda h: (h.get('prop') == 'C06') == (prop in ('C06', 'C07'))))
+        if prop == 'C08':
+            extra.append(('cheatpipe', _cheatpipe_failures, 'tokens/setup_cheat_fds/setup.own_jobserver_owns_its_debts', lambda h: True))
+        if prop in ('C03', 'C01'):
+            extra.append(('stamp-pipe', _stamp_pipe_failures, 'gluebins/stamp_digest/stamp.digest_covers_the_whole_input', lambda h: True))
+        extra.append(('corpus', lambda: _corpus_failures(prop), None, lambda h: True))
+        for pname, fnc, oid, keep in extra:
+            try:
+                r = fnc()
+            except Exception as e:
+                r = None
+                notes.append('bounded probe %s: failed to run (%s)' % (pname, e))
+            if r is None:
+                notes.append('bounded probe %s: could not be built or run (nothing concluded from it)' % pname)
+                continue
+            hits = [h for h in r[0] if keep(h)]
+            notes.append('bounded probe %s: %d histories on the real binaries, %d failure(s) [bounded, not counted as proved]' % (pname, r[1], len(hits)))
+            for h in hits:
+                o = oid or 'corpus/%s/history' % h['input'].split('/')[1]
+                out.append(dict(oid=o, msg='clause fails on the real binaries for a concrete history (bounded probe %s)' % pname, where=REPO, site=None, text=h['clause'],
+                                rendered=json.dumps(h, indent=1), inputs=[h['input']], fn=o.split('/')[1], label=o.split('/')[2], props=[prop]))
     if prop in ('C15', 'C07', 'C06') and os.environ.get('VERIF_TIER_EFFECTIVE') == 'thorough':
         r = _names_failures()
         if r is None:
